@@ -12,9 +12,23 @@ STEPS = 3000000
 
 
 def draw(rng, focus, maxlen):
+    """A sequence of C04 in which a focus step is preceded by at least one
+    other step.  In a third of the sequences a token-editing step
+    (punctuation_delete) is put somewhere before the end as well: it changes
+    the sentence, which no contract of the calling oracles assumes fixed.
+    When the focus itself is punctuation_delete it is inserted after at least
+    one structural step."""
     from . import oracle_c04
+    edit_focus = 'punctuation_delete' in focus
     for _ in range(40):
         seq = oracle_c04.draw_sequence(rng, maxlen)
+        if edit_focus or rng.random() < 0.33:
+            # not between boyd_split and raising / collapse and uncollapse
+            ok = [k for k in range(1 if edit_focus else 0, len(seq) + 1)
+                  if not (k > 0 and seq[k - 1][0] in ('boyd_split',
+                                                      'collapse_unary_chains'))]
+            if ok:
+                seq.insert(rng.choice(ok), ['punctuation_delete', {}])
         if any(step in focus for step, _ in seq[1:]):
             return seq
     return None
